@@ -438,6 +438,8 @@ HAND_EFFECT = [
     ('@dec\ndef f(): return 1\nr = f', {'dec': {'$fn': 'ident'}}),
     ('def f():\n    with ctx(a) as w:\n        pass\n    return w\nr = f()', {'ctx': {'$cm': 1}, 'a': 4, 'w': 0}),
     ('with ctx(a) as w, ctx(w) as z:\n    r = (w, z)', {'ctx': {'$cm': 1}, 'a': 4}),
+    ('s = "a\tb"\nif 1:\n\tt = "c\td"\n\tif 2:\n\t    u = "e\t"\n', {}),
+    ('class A:\n    def m(self): return 1\nclass B(A):\n    def m(self): return super().m() + 1\nr = B().m()', {}),
     ('def f():\n    def g(p: a, *q: a, k: a = 1) -> a:\n        return p\n    return sorted(g.__annotations__.items())\nr = f()', {'a': 4}),
 ]
 
